@@ -35,6 +35,9 @@ type c16Step struct {
 	// Layout places harmless siblings around a nested vesting message (only with Nest > 0):
 	// "" single chain | cleanfirst-top: [exec[send], chain] | cleanfirst-inner: exec[exec[send], chain-1] | sendfirst-inner: exec[send, chain-1]
 	Layout string `json:"layout,omitempty"`
+	// Spell: spelling of the account field of a proof message: "" canonical lower-case bech32 | upper (the all-upper-case
+	// spelling bech32 also accepts: same address bytes, another string)
+	Spell string `json:"spell,omitempty"`
 }
 
 type c16Case struct {
@@ -93,6 +96,9 @@ func genC16(t *rapid.T) c16Case {
 		} else {
 			s.Kind = "proof"
 			s.Sig = rapid.SampledFrom(sigs).Draw(t, "sig")
+			if rapid.IntRange(0, 3).Draw(t, "spell") == 0 {
+				s.Spell = "upper"
+			}
 		}
 		cs.Steps = append(cs.Steps, s)
 	}
@@ -205,7 +211,11 @@ func runC16(cs c16Case) *Outcome {
 		coins := sdk.NewCoins(sdk.NewCoin(chain.Denom, sdkmath.NewInt(1000)))
 		switch st.Kind {
 		case "proof":
-			msg = &vauthtypes.MsgSubmitProofExternalOwnedAccount{Submitter: chain.K(st.Submitter).Acc().String(), Account: target.Acc().String(), Signature: c16Signature(target, st.Sig)}
+			account := target.Acc().String()
+			if st.Spell == "upper" {
+				account = strings.ToUpper(account)
+			}
+			msg = &vauthtypes.MsgSubmitProofExternalOwnedAccount{Submitter: chain.K(st.Submitter).Acc().String(), Account: account, Signature: c16Signature(target, st.Sig)}
 		case "vest":
 			msg = vestingtypes.NewMsgCreateVestingAccount(chain.K(st.Submitter).Acc(), target.Acc(), coins, 1800000000, rapidBoolFromIndex(si))
 		case "vestperiodic":
@@ -277,6 +287,9 @@ func runC16(cs c16Case) *Outcome {
 			if succeeded {
 				nAccepted++
 				o.label("proof-accepted:" + st.Sig)
+				if st.Spell != "" {
+					o.label("proof-accepted:spelling-" + st.Spell)
+				}
 				if hadProof {
 					o.dev("", "step %d (%+v): a second proof was accepted for an already proven account", si, st)
 				}
